@@ -40,6 +40,11 @@ THEOREMS = [
     "C07_acyclic_check_sound",
     "C07_wf_check_sound",
     "C07_closed_check_sound",
+    "C07_children_eq_spec_partial",
+    "C07_children_eq_spec_refuted",
+    "C07_acyclic_spec",
+    "C07_Known_2_fails",
+    "C07_spec_acyclic_check_sound",
 ]
 ALLOWED_AXIOMS = ()
 
